@@ -18,8 +18,9 @@ fn run_factor(ctx: &mut Ctx, f: &[BigInt], p: &BigInt, pusize: usize, seed: u64,
     let pf = pz(f);
     let (ans, log) = run_rng(seed, script, || show_factors(&factorize_mod_p::<BigInt>(&pf, p, pusize)));
     ctx.emit("pm.factor", &[show_pz(&pf), p.to_string(), pusize.to_string(), log.clone()], ans.clone());
-    // the same generic routine at i128 (p < 2^61) now and then: other arithmetic, other sampler
-    if p.bits() <= 61 && pf.dat.iter().all(|c| c.bits() <= 61) && pusize as u128 == p.to_u128().unwrap_or(0) && ctx.lines.len() % 4 == 0 {
+    // the same generic routine at i128 now and then (p < 2^40: the routine multiplies up to three residues
+    // before reducing, so larger primes overflow an i128 in the unchanged code): other arithmetic, other sampler
+    if p.bits() <= 40 && pf.dat.iter().all(|c| c.bits() <= 40) && pusize as u128 == p.to_u128().unwrap_or(0) && ctx.lines.len() % 4 == 0 {
         run_factor_i128(ctx, &pf.dat, p, pusize);
     }
     (ans, log)
